@@ -55,10 +55,11 @@ def ensure_built(verbose=False):
     """Run `setup.py build_ext -i` in /repo if any native source changed (by mtime, as distutils
     sees it, and additionally by content relative to the last build this framework performed)."""
     os.makedirs(CACHE, exist_ok=True)
-    lockf = open(os.path.join(CACHE, "build.lock"), "w")
+    tag = hashlib.sha1(os.path.abspath(REPO).encode()).hexdigest()[:8] if os.path.abspath(REPO) != "/repo" else ""
+    lockf = open(os.path.join(CACHE, "build%s.lock" % tag), "w")
     fcntl.flock(lockf, fcntl.LOCK_EX)
     try:
-        stamp_path = os.path.join(CACHE, "buildstamp.json")
+        stamp_path = os.path.join(CACHE, "buildstamp%s.json" % tag)
         cur = _native_hashes()
         try:
             with open(stamp_path) as f:
@@ -103,11 +104,14 @@ def private_cache_env(subdir=None):
     base = os.path.join(CACHE, "xdg", th)
     os.makedirs(base, exist_ok=True)
     xdgroot = os.path.join(CACHE, "xdg")
+    # prune caches of other source trees, but never one that was used within the last three hours (parallel
+    # runs on scratch worktrees / snapshots each have their own tree hash)
+    now = time.time()
     others = sorted((d for d in os.listdir(xdgroot) if d != th),
                     key=lambda d: os.path.getmtime(os.path.join(xdgroot, d)))
-    # keep the most recent other tree (flip-flopping between a patched and the clean tree), drop the rest
     for d in others[:-1]:
-        shutil.rmtree(os.path.join(xdgroot, d), ignore_errors=True)
+        if now - os.path.getmtime(os.path.join(xdgroot, d)) > 3 * 3600:
+            shutil.rmtree(os.path.join(xdgroot, d), ignore_errors=True)
     os.utime(base, None)
     path = base if subdir is None else os.path.join(base, subdir)
     os.makedirs(path, exist_ok=True)
